@@ -48,6 +48,9 @@ Law(kind, base, var, vdef) ==
   ELSE IF kind = "yields-ja" THEN
        \* round-trip laws of the builtins (C14), stated as programs that must evaluate to ja
        IF var.class = "Value" /\ var.val.t = "B" /\ var.val.v THEN "holds" ELSE "broken"
+  ELSE IF kind = "must-fail" THEN
+       \* a computation beyond the machine's limits: any documented error, never a value (U11)
+       IF var.class = "Err" THEN "holds" ELSE "broken"
   ELSE \* undeclare
        IF var.class = "Err" /\ var.kind = "Reference" /\ var.out = <<>> THEN "holds" ELSE "broken"
 =============================================================================
